@@ -153,28 +153,32 @@ def simple_compare(chk, repo, d):
            "before a 64-bit comparison", bool(wid), f,
            "shift left 32 then arithmetic shift right 32")
     # immediate / register form chosen consistently in compare and target
-    loads = [s for s in walk_no_nested(f) if isinstance(s, ast.If)
-             and any("self.src" in unparse(x) for x in s.body)]
+    # (path conditions, so that the shape of the if/else does not matter)
+    loads = [s for s in walk_no_nested(f) if isinstance(s, ast.Assign)
+             and any("self.src" in unparse(t) for t in s.targets)]
     need(len(loads) == 1, f"{sym}: register-load branch not found")
-    lt = loads[0].test
-    pred = lt.operand if isinstance(lt, ast.UnaryOp) and isinstance(
-        lt.op, ast.Not) else None
+    lfacts = [(unparse(e), tr) for e, tr in path_facts(loads[0])]
+    need(len(lfacts) == 1, f"{sym}: the register load is guarded by "
+         f"{lfacts}, expected one condition")
+    ptxt, ptruth = lfacts[0]
     tsym = E + "SimpleComparison.target"
     t = repo.func(tsym)
     chk.analysed(tsym)
-    imm_tests = []
-    for s in walk_no_nested(t):
-        if isinstance(s, ast.If) and any(
-                "self.right.value" in unparse(x) for x in s.body):
-            imm_tests.append(s.test)
-    ok = pred is not None and len(imm_tests) == 1 and same(pred,
-                                                           imm_tests[0])
+    imms = [c for c in calls_in(t) if dotted(c.func) == "Instruction"
+            and "self.right.value" in unparse(c)]
+    regs = [c for c in calls_in(t) if dotted(c.func) == "Instruction"
+            and "self.src" in unparse(c)]
+    need(len(imms) == 1 and len(regs) == 1,
+         f"{tsym}: immediate/register jump forms not found")
+    ifacts = {(unparse(e), tr) for e, tr in path_facts(stmt_of(imms[0]))}
+    rfacts = {(unparse(e), tr) for e, tr in path_facts(stmt_of(regs[0]))}
+    ok = (ptxt, not ptruth) in ifacts and (ptxt, ptruth) in rfacts
     chk.ob("R03.1", tsym, "immediate form iff compare() did not load the "
            "right operand", ok, t,
-           f"compare() loads a register unless `{unparse(pred)}`; target() "
-           f"uses the immediate if `{unparse(imm_tests[0]) if imm_tests else '?'}`"
-           f": where the two differ the jump compares with a stale register "
-           f"or a truncated immediate")
+           f"compare() loads a register when `{ptxt}` is {ptruth}; target() "
+           f"uses the immediate under {sorted(ifacts)} and the register "
+           f"under {sorted(rfacts)}: where the two differ the jump compares "
+           f"with a stale register or a truncated immediate")
     regform = find("Instruction(self.opcode + Opcode.REG, self.dst, self.src,"
                    " $off, 0)", t)
     immform = find("Instruction(self.opcode, self.dst, 0, $off, "
